@@ -22,6 +22,7 @@ contract parameters; the contract itself is checked against the model's Bellman-
 import heapq
 import itertools
 import json
+import re
 
 import numpy as np
 
@@ -30,35 +31,60 @@ from . import common
 PROP = "C14"
 INFO = dict(
     technique="Lean 4 proof (general theorems by induction for graphs of every size; kernel-decided tables over the "
-              "property's two exhaustive small domains kept as an independent cross-check) + exhaustive/random "
-              "model-implementation correspondence on the real classes",
+              "property's two exhaustive small domains kept as an independent cross-check) + the Python-level logic of "
+              "menpo/shape/graph.py TRANSLATED from the source text of the working tree on every run "
+              "(harness/py2lean2.py + py2lean2w.py + trans_c14.py -> Generated/C14Src.lean: 40 definitions, among them the "
+              "nested recursive dfs of _has_cycles with fuel, two `while` loops with fuel and nine `for` loops) and "
+              "proved EQUAL to the Core definitions the theorems are about, for all arguments (GenProps/C14Src.lean, 41 "
+              "obligations re-checked by lake on every run), the property theorems being restated about the translated "
+              "definitions (GenProps/C14SrcProps.lean) + exhaustive/random model-implementation correspondence on the "
+              "real classes",
     level_text="Theorems over an executable model of menpo/shape/graph.py, for graphs of EVERY size: edge list -> "
                "adjacency reports exactly the edge set (each undirected edge once, symmetric); neighbours/children/"
                "parents/isolated/adjacency list/edge test consistent; masking = induced subgraph renumbered in order "
                "with points following, and a sequence of masks is one mask (mask_mask); PointTree.from_mask keeps "
                "exactly the masked-in vertices joined to the root through masked-in vertices, renumbered in order, "
-               "root re-indexed (treeFromMask_root_component); the recursive DFS cycle detector _has_cycles, "
-               "transcribed with its shared entered/exited/tree_edges/back_edges state, answers True iff there is a "
-               "closed walk (directed) / a self-loop or simple cycle (undirected), by a DFS invariant over a fuel-free "
-               "big-step semantics that the fuelled transcription provably realises, and equals the closed-walk / "
-               "cyclomatic-number references on every graph; is_tree = non-empty, connected, acyclic (undirected; the "
-               "n-1 edge count is implied) and = 'the underlying graph is a tree' (directed); the Tree constructor "
-               "accepts exactly the arborescences on >= 2 vertices (BFS-tree comparison as coded), and in every "
-               "accepted tree parent/children/depth/leaves/levels are total and mutually consistent; find_all_paths = "
-               "exactly the simple routes; Bellman-Ford reference distances sound and optimal; the reconstructed "
-               "shortest route weighs d(start,end) under scipy's predecessor contract; the Kruskal reference returns "
-               "a minimum spanning forest (forest, spanning, n - #components edges, minimal against every spanning "
-               "edge set).  The kernel-decided tables over ALL 1+2+8+64+1024 undirected graphs on <=5 vertices and ALL "
-               "1+4+64+4096 loop-free digraphs on <=4 vertices (24 chunk files) are kept.  The model is tied to /repo "
-               "by running every graph of both small domains (every mask, root, start/end pair) and random "
-               "graphs/trees/weighted graphs up to 40 vertices (dense / csr, six dtypes, edge lists, explicit zeros, "
-               "negative weights, objects with a previous life) on the real classes and diffing every observable "
-               "against the Lean driver; an independent python oracle decides the property.",
+               "root re-indexed (treeFromMask_root_component); the recursive DFS cycle detector _has_cycles "
+               "answers True iff there is a closed walk (directed) / a self-loop or simple cycle (undirected), by a DFS "
+               "invariant over a fuel-free big-step semantics that the fuelled recursion provably realises, and equals "
+               "the closed-walk / cyclomatic-number references on every graph; is_tree = non-empty, connected, acyclic "
+               "(undirected; the n-1 edge count is implied) and = 'the underlying graph is a tree' (directed); the Tree "
+               "constructor accepts exactly the arborescences on >= 2 vertices (BFS-tree comparison as coded), and in "
+               "every accepted tree parent/children/depth/leaves/levels are total and mutually consistent; "
+               "find_all_paths = exactly the simple routes; Bellman-Ford reference distances sound and optimal; the "
+               "reconstructed shortest route weighs d(start,end) under scipy's predecessor contract; the Kruskal "
+               "reference returns a minimum spanning forest (forest, spanning, n - #components edges, minimal against "
+               "every spanning edge set) and, for pairwise different weights, THE minimum spanning forest "
+               "(minimum_spanning_forest_unique: every spanning forest that weighs no more consists of the same edges); "
+               "graphs with integer weights of any sign: the structural operations are those of the graph of absolute "
+               "values and masking carries the signed entries (signed_structural_ops, signed_mask_induced).  "
+               "TRANSLATED FROM THE SOURCE rather than transcribed (each proved equal to its Core definition for all "
+               "arguments, so the theorems above are theorems about what graph.py says now): _check_vertex (natural "
+               "and integer vertex), is_edge, neighbours, children, parents, n_neighbours, n_children, n_parents (with "
+               "their skip_checks guards), both `edges` properties, n_edges, _isolated_vertices, isolated_vertices, "
+               "has_isolated_vertices, get_adjacency_list and _get_predecessors_list (loops over the row-major listing), "
+               "_has_cycles INCLUDING ITS INNER RECURSIVE dfs (state passing, fuel), has_cycles, is_tree, find_all_paths "
+               "(recursive, fuel) and n_paths, Tree.is_leaf / leaves / n_leaves / parent, depth_of_vertex (while loop), "
+               "vertices_at_depth, n_vertices_at_depth, Graph.__init__ / UndirectedGraph.__init__ / "
+               "DirectedGraph.__init__ / Tree.__init__ (checks and object state), _mask_adjacency_matrix_and_points, "
+               "PointUndirectedGraph / PointDirectedGraph / PointTree.from_mask (the latter with its while loop over "
+               "scipy's component labels), _convert_edges_to_adjacency_matrix and "
+               "_convert_edges_to_symmetric_adjacency_matrix.  The kernel-decided tables over ALL 1+2+8+64+1024 "
+               "undirected graphs on <=5 vertices and ALL 1+4+64+4096 loop-free digraphs on <=4 vertices (24 chunk "
+               "files) are kept.  The model is further tied to /repo by running every graph of both small domains "
+               "(every mask, root, start/end pair) and random graphs/trees/weighted graphs up to 40 vertices (dense / "
+               "csr, six dtypes, edge lists, explicit zeros, negative weights, objects with a previous life, every "
+               "vertex-taking entry point at the boundary vertices -1, 0, n-1, n) on the real classes and diffing "
+               "every observable against the Lean driver; an independent python oracle decides the property.",
     level_note="Trusted: Lean kernel; axioms propext/Classical.choice/Quot.sound; the Python harness and the driver's "
-               "parser; scipy.sparse.csgraph (shortest_path, breadth/depth_first_order, breadth_first_tree, "
-               "connected_components, minimum_spanning_tree) as contract parameters whose outputs are validated "
-               "against the model's reference algorithms (proved correct: Bellman-Ford, Kruskal, reachability "
-               "closure, BFS tree) on every case; scipy.sparse indexing.",
+               "parser; the source-to-Lean translator harness/py2lean2.py + harness/py2lean2w.py and the C14 vocabulary "
+               "harness/trans_c14.py + Core/C14Src.lean (which numpy / scipy.sparse expression of graph.py stands for "
+               "which model operation: A[i, :].nonzero()[1] = row, A.nonzero() = the row-major listing of the stored "
+               "non-zeros, sets as lists, dicts as association lists, A[keep, :][:, keep] = select, labels of "
+               "connected_components = smallest vertex of the component); scipy.sparse.csgraph (shortest_path, "
+               "breadth/depth_first_order, breadth_first_tree, connected_components, minimum_spanning_tree) as contract "
+               "parameters whose outputs are validated against the model's reference algorithms (proved correct: "
+               "Bellman-Ford, Kruskal, reachability closure, BFS tree) on every case; scipy.sparse indexing.",
     rule="a case is one (graph, operation, arguments) evaluation on the real classes; distinct = distinct "
          "(kind, n, stored entries, operation, arguments); non-trivial = the graph has at least one edge",
     partial=["find_shortest_path cost, find_shortest_path(v,v) and find_path(v,v) are recorded known findings (pinned "
@@ -66,23 +92,23 @@ INFO = dict(
              "formula, the repaired statement is shortest_route_weight_is_distance",
              "quick tier samples masks / start-end pairs per small graph (every graph, every root of every candidate "
              "tree and every mask of every arborescence are always run); the thorough tier runs every combination",
-             "csr matrices with explicitly stored zeros: the edge queries read them as non-edges, scipy.csgraph as "
-             "weight-0 edges (find_path, find_shortest_path, minimum_spanning_tree, is_tree disagree with edges / "
-             "is_edge); proposed repair notes/fixes/C14-explicit-zeros.diff (eliminate_zeros in Graph.__init__); until "
-             "it is applied the csgraph-backed queries are left out for such matrices (they are checked automatically "
-             "as soon as the constructor drops stored zeros)",
-             "the Lean model carries natural-number weights: graphs with negative weights are compared with the model "
-             "on |w| for the structural operations (basic, mask, tmask, paths, tree, levels, fp) and judged by the "
-             "python oracle alone for shortest paths and spanning trees",
-             "uniqueness of the minimum spanning tree for pairwise different weights (used by the mste comparison) is "
-             "the textbook fact, not a Lean theorem; kruskal_minimum_spanning_forest proves minimality of the weight"],
+             "shortest paths and spanning trees of graphs with NEGATIVE weights are judged by the python oracle alone "
+             "(Bellman-Ford / Prim): the model's reference distances and Kruskal weights are natural numbers; all "
+             "structural operations are compared with the model on the signed weights",
+             "not translated from the source (transcribed, tied by the correspondence): find_path / "
+             "find_shortest_path (the walk back along scipy's predecessor array), minimum_spanning_tree, "
+             "maximum_depth (np.max), relative_location_edge / relative_locations, the predefined graphs; "
+             "PointTree.from_mask is proved equal to the model for index points 0..n-1 (arbitrary points follow by "
+             "the same mask, mask_points_follow)"],
     assumptions=["edge weights are integers of any sign (exact in float64) for the plain queries, masks, paths, "
                  "spanning trees and trees; shortest paths with negative weights only on directed acyclic graphs with "
                  "Bellman-Ford / Johnson",
                  "a single-vertex Tree is outside menpo's Tree domain by design ('a tree cannot have isolated "
                  "vertices'); minimum spanning trees are only defined for connected graphs",
                  "Python's recursion limit is not modelled (the recursive detector is run on graphs of up to 40 "
-                 "vertices; the Lean theorems hold for every size of the model)"],
+                 "vertices; the Lean theorems hold for every size of the model); the fuel 2n+2 the translated dfs is "
+                 "called with never runs out (Dfs.dfs_exec), nor do n+2 (find_all_paths), n+1 (depth_of_vertex on an "
+                 "accepted tree: treeCtor_depth_total) and n+1 (PointTree.from_mask: one round suffices, while_prune)"],
     design_ref="DESIGN.md section 6, C14")
 IMPORTS = ["MenpoModel.Props.C14"]
 _T = "MenpoModel.C14."
@@ -104,12 +130,30 @@ THEOREMS = [_T + t for t in [
     "isTree_undirected_spec", "isTree_directed_spec", "treeCtor_spec", "tree_relations_total", "tree_levels",
     "reference_components_correct",
     "treeFromMask_root_component", "pruneLoop_root_component",
-    "kruskal_minimum_spanning_forest",
+    "kruskal_minimum_spanning_forest", "minimum_spanning_forest_unique",
+    "signed_structural_ops", "signed_mask_induced",
     # the lemmas the above rest on, audited by name as well
     "Dfs.dfs_exec", "Dfs.hasCyclesL_directed", "Dfs.hasCyclesL_undirected", "Dfs.back_nil_iff_edge_count",
     "hasCycles_eq_refCycleD", "hasCycles_eq_refCycleU", "refCycleU_iff", "isTree_eq_refTreeU", "isTree_eq_refPolytree",
     "treeCtorOk_eq", "treeCtor_depth_total", "mem_reachFrom", "nComponents_eq_count",
-    "kruskal_minimal", "kruskal_spanning", "kruskal_forest", "kruskal_count_components",
+    "kruskal_minimal", "kruskal_spanning", "kruskal_forest", "kruskal_count_components", "kruskal_unique_forestR",
+]]
+
+_G = "MenpoModel.GenProps.C14."
+# obligations over the translated source (GenProps/C14Src.lean), audited when the generated build succeeds
+GEN_THEOREMS = [_G + t for t in [
+    "genCheckVertex_eq", "genCheckVertexI_eq", "genIsEdge_eq", "genNeighbours_eq", "genChildren_eq", "genParents_eq",
+    "genNNeighbours_eq", "genNChildren_eq", "genNParents_eq", "genEdgesD_eq", "genEdgesU_eq", "genEdges_eq", "genNEdges_eq",
+    "genIsolated_eq", "genIsolatedVertices_eq", "genHasIsolatedVertices_eq", "genGetAdjacencyList_eq",
+    "genGetPredecessorsList_eq", "genDfs_eq", "genHasCycles_eq", "genHasCyclesM_eq", "genIsTree_eq", "genFindAllPaths_eq",
+    "genNPaths_eq", "genIsLeaf_eq", "genLeaves_eq", "genNLeaves_eq", "genParent_eq", "genGraphInit_eq",
+    "genUndirectedGraphInit_eq", "genDirectedGraphInit_eq", "genTreeInit_eq", "genDepthOfVertex_eq",
+    "genVerticesAtDepth_eq", "genNVerticesAtDepth_eq", "genConvertEdges_eq", "genConvertEdgesSym_eq", "genMask_eq",
+    "genFromMaskD_eq", "genFromMaskU_eq", "genFromMaskT_eq",
+    # the property theorems restated about the translated source (GenProps/C14SrcProps.lean)
+    "translated_has_cycles_directed", "translated_has_cycles_undirected", "translated_has_cycles_method",
+    "translated_is_tree", "translated_find_all_paths", "translated_tree_init", "translated_tree_queries",
+    "translated_edges_exact", "translated_from_mask", "translated_tree_from_mask",
 ]]
 
 S_COST = "C14/find_shortest_path.cost/start!=end"
@@ -541,23 +585,18 @@ class Batch(object):
         self.expect = {}   # id -> (op, impl string or callable(reply) -> problem text | None, replay)
 
     # operations whose answer depends on the zero pattern of the matrix only (weights are at most echoed)
-    STRUCTURAL = ("basic", "mask", "tmask", "paths", "tree", "levels", "fp")
+    STRUCTURAL = ("basic", "mask", "tmask", "paths", "tree", "levels", "fp", "api")
 
     def add(self, op, args, impl, replay):
-        if "-" in args:
-            # a negative edge weight (vertex ids are never negative): the Lean graph model carries natural-number
-            # weights.  For the structural operations the same graph with every weight replaced by its absolute
-            # value has the same zero pattern, so model and implementation are compared on |w| (echoed weights are
-            # compared by absolute value); operations that add or order weights (sp, mst, mste, dist) are judged by
-            # the oracle on the real code only
+        if re.search(r"(?<![\d])-\d", args):
+            # a negative edge weight (vertex ids are never negative).  The driver parses signed entries: the structural
+            # operations run on the graph of absolute values (same zero pattern: theorem signed_structural_ops) and
+            # `mask` / `tmask` echo the signed entries (signed_mask_induced), so these are compared as they are;
+            # operations that add or order weights (sp, mst, mste, dist) are judged by the oracle on the real code only
             if op not in self.STRUCTURAL:
                 self.skipped_negative = getattr(self, "skipped_negative", 0) + 1
                 return
-            import re
-            self.abs_weights = getattr(self, "abs_weights", 0) + 1
-            args = re.sub(r"-(\d)", r"\1", args)
-            if isinstance(impl, str):
-                impl = re.sub(r"(?<![\d])-(\d)", r"\1", impl)   # 'a-b' edge pairs and the empty marker '-' stay
+            self.signed = getattr(self, "signed", 0) + 1
         cid = "q%d" % len(self.lines)
         self.lines.append("%s %s %s" % (cid, op, args))
         self.expect[cid] = (op, impl, replay)
@@ -649,6 +688,72 @@ def battery(ctx, obj, g, rp, rng=None, full=True, site="C14/queries", trees=True
     return cmp
 
 
+def check_entry_points(ctx, b, obj, g, rp, rng, root=None, site="C14/entry-points"):
+    """the public entry points with their vertex guards (the functions whose source is translated into Lean and proved
+    equal to the `...Api` definitions of Core/C14Src.lean): every vertex-taking method at the boundary vertices
+    -1, 0, n-1, n, n+2 and a seeded interior one, with skip_checks left False and (valid vertices only) set True.
+    oracle: ValueError exactly for a vertex outside 0..n-1, otherwise the value the edge set dictates; the Lean model
+    (`api` op) answers the same questions for the non-negative vertices."""
+    n = g.n
+    tree = root is not None
+    vs = sorted(set([-1, 0, n - 1, n, n + 2] + ([rng.randrange(n)] if n else [])))
+    for v in vs:
+        inside = 0 <= v < n
+        for skip in ((False, True) if inside else (False,)):
+            kw = {"skip_checks": True} if skip else {}
+            u = rng.randrange(n)
+            obs = {}
+            calls = [("ie", lambda: obj.is_edge(u, v, **kw)), ("ie2", lambda: obj.is_edge(v, u, **kw))]
+            if g.directed:
+                calls += [("row", lambda: ints(obj.children(v, **kw))), ("col", lambda: ints(obj.parents(v, **kw))),
+                          ("nch", lambda: int(obj.n_children(v, **kw))), ("npar", lambda: int(obj.n_parents(v, **kw)))]
+            else:
+                calls += [("row", lambda: ints(obj.neighbours(v, **kw))), ("nch", lambda: int(obj.n_neighbours(v, **kw)))]
+            if tree:
+                calls += [("leaf", lambda: bool(obj.is_leaf(v, **kw))), ("par", lambda: obj.parent(v, **kw)),
+                          ("dep", lambda: int(obj.depth_of_vertex(v, **kw)))]
+            for name, f in calls:
+                st, val = guarded(f)
+                obs[name] = val if st == "ok" else ("X" if st == "err" else "EXC:" + str(val))
+                ctx.check((st == "ok") == inside and st != "exc", site, "vertex-guard:" + name,
+                          "%s at vertex %d of %d vertices (skip_checks=%r): %s" % (name, v, n, skip, "returned" if st == "ok" else val),
+                          dict(rp, vertex=v, skip_checks=skip, method=name))
+            if inside:
+                exp = {"ie": (u, v) in g.w, "ie2": (v, u) in g.w, "row": sorted(g.out[v]), "nch": len(g.out[v])}
+                if g.directed:
+                    exp.update(col=sorted(g.inn[v]), npar=len(g.inn[v]))
+                if tree:
+                    exp.update(leaf=not g.out[v], par=(g.inn[v][0] if g.inn[v] else None))
+                for k, e in exp.items():
+                    o = obs.get(k)
+                    o = sorted(o) if isinstance(o, list) else (bool(o) if isinstance(e, bool) else o)
+                    ctx.check(o == e, site, "value:" + k, "%s at vertex %d (skip_checks=%r) = %r, the edges say %r" % (k, v, skip, o, e),
+                              dict(rp, vertex=v, skip_checks=skip, method=k))
+            if v >= 0 and n <= MODEL_TREE_NMAX:
+                def fx(x, f):
+                    return x if isinstance(x, str) else f(x)
+                impl = {"ie": fx(obs["ie"], lambda x: str(int(bool(x)))), "row": fx(obs["row"], lambda x: fl(sorted(x))),
+                        "nch": fx(obs["nch"], str)}
+                if g.directed:
+                    impl.update(col=fx(obs["col"], lambda x: fl(sorted(x))), npar=fx(obs["npar"], str))
+                if tree:
+                    impl.update(leaf=fx(obs["leaf"], lambda x: str(int(x))), par=fx(obs["par"], fo), dep=fx(obs["dep"], str))
+
+                def cmp(reply, impl=impl):
+                    if not reply.startswith("ok "):
+                        return "model: %s" % reply
+                    f = dict(x.split("=") for x in reply[3:].split(";"))
+                    for k, x in impl.items():
+                        if f.get(k) != x:
+                            return "%s: model %s vs implementation %s" % (k, f.get(k), x)
+                    return None
+                ctx.count("entry-points:model-compared")
+                b.add("api", "%s %d %d %d %d 0" % (g.wire(), root if tree else 0, u, v, int(skip)), cmp,
+                      dict(rp, vertex=v, other=u, skip_checks=skip, call="every vertex-taking method at this vertex"))
+    ctx.count("entry-points:graphs")
+
+
+
 def check_basic(ctx, b, g, variant, point, rng=None, full=True):
     """queries of one graph on the real class vs the oracle; returns the object"""
     rep = variant.partition(":")[0]
@@ -674,6 +779,10 @@ def check_basic(ctx, b, g, variant, point, rng=None, full=True):
     # explicitly stored zeros are non-edges for every edge query; is_tree goes through scipy.csgraph (see STORED_ZEROS_STRICT)
     cmp = battery(ctx, obj, g, rp, rng, full, trees=rep != "csrz" or STORED_ZEROS_STRICT or zeros_dropped(obj))
     b.add("basic", g.wire(), cmp, rp)
+    if rng is not None and (g.n > 5 or getattr(ctx, "entry_all", False) or rng.random() < (0.04 if ctx.quick() else 0.25)):
+        # the vertex guards of every entry point (random graphs: always; the exhaustive small domains: a seeded 4 %
+        # in the quick tier, 25 % in the thorough tier, all of them in the directed search after a broken tie)
+        check_entry_points(ctx, b, obj, g, rp, rng)
     return obj
 
 
@@ -1050,6 +1159,8 @@ def check_tree_ctor(ctx, b, g, r, point, via, rng=None):
     ctx.check(snap(t) == before, "C14/receiver-unchanged", "after:tree-queries", "the tree queries changed the tree", rp)
     if ok and rok:
         tree_model_lines(ctx, b, t, g.wire(), r, g.n, pred, depth, leaves, rp)
+        if exp and (rng or ctx.rng).random() < (1.0 if g.n > 4 or getattr(ctx, "entry_all", False) else 0.1 if ctx.quick() else 0.3):
+            check_entry_points(ctx, b, t, g, rp, rng or ctx.rng, root=r)    # is_leaf / parent / depth_of_vertex guards too
     return t
 
 
@@ -1782,6 +1893,7 @@ def search(ctx):
     t0 = time.time()
     budget = 45 if ctx.quick() else 240
     seen = set()
+    ctx.entry_all = True    # after a broken tie: the vertex guards of every entry point on every graph that is run
     for op, why, rp in ctx.mismatches[:12]:
         if "entries" not in rp:
             continue
@@ -1832,17 +1944,65 @@ def search(ctx):
     return bool(ctx.failures)
 
 
+def generated(ctx):
+    """the Python-level logic of menpo/shape/graph.py, TRANSLATED from the source text of the working tree into
+    Generated/C14Src.lean (harness/trans_c14.py), and the equality obligations of GenProps/C14Src.lean re-checked by
+    lake.  A source that no longer fits the vocabulary, a type error in the translation or a failed equality proof is
+    a BROKEN OBLIGATION (then: directed search), never an infrastructure error."""
+    import os
+    import re
+    from . import trans_c14
+    files, reasons = trans_c14.generated_files()
+    ctx.notes["source_translation"] = ("%d definitions translated from menpo/shape/graph.py" % trans_c14.N_DEFS if not reasons
+                                       else "untranslatable: " + "; ".join(reasons))
+    ok = common.build_generated(ctx, files, trans_c14.GEN_TARGETS, trans_c14.N_OBLIGATIONS)
+    if ok:
+        # the obligations (and the property theorems restated about the translated detector) are axiom-audited as well
+        ax = common.axiom_audit(PROP + "gen", ["MenpoModel.GenProps.C14Src", "MenpoModel.GenProps.C14SrcProps"], GEN_THEOREMS)
+        audited = {}
+        for t in GEN_THEOREMS:
+            hit = [k for k in ax if k == t or k.endswith("." + t) or t.endswith("." + k)]
+            audited[t] = ax[hit[0]] if hit else []
+            if t.split(".")[-1].startswith("translated_"):
+                ctx.theorems[t] = audited[t]      # property theorems about the translated source
+        # the `gen..._eq` equalities stay counted as generated obligations (ctx.gen_obligations); their axioms:
+        ctx.notes["generated_obligations_axioms"] = sorted(set(a for t, v in audited.items() for a in v))
+        ctx.notes["generated_obligations_audited"] = len([t for t in audited if not t.split(".")[-1].startswith("translated_")])
+        return
+    # name the obligations that no longer check (for the replay and for the directed search)
+    rec = ctx.broken_obligations[-1]
+    names = []
+    try:
+        src = open(os.path.join(common.LEAN, "MenpoModel", "GenProps", "C14Src.lean")).read().splitlines()
+        for ln in re.findall(r"error: MenpoModel/GenProps/C14Src\.lean:(\d+):\d+", "\n".join(rec.get("errors", [])) + "\n" + rec.get("output_tail", "")):
+            i = int(ln) - 1
+            while i >= 0 and not src[i].startswith("theorem "):
+                i -= 1
+            if i >= 0:
+                nm = src[i].split()[1]
+                if nm not in names:
+                    names.append(nm)
+    except OSError:
+        pass
+    rec["obligations"] = names
+    rec["untranslatable"] = reasons
+    ctx.notes["broken_source_obligations"] = names or reasons or ["(see output_tail)"]
+
+
 def run(ctx):
     common.prepare_lean(ctx, PROP, IMPORTS, THEOREMS,
-                        targets=["MenpoModel.Props.C14", "MenpoModel.Drive.C14"])
+                        targets=["MenpoModel.Props.C14", "MenpoModel.Drive.C14"], generated=generated)
     ctx.trusted += ["scipy.sparse.csgraph results (shortest_path, breadth/depth_first_order, breadth_first_tree, "
                     "connected_components, minimum_spanning_tree) enter the model as parameters; their contract is "
                     "re-checked against the model's Bellman-Ford / Kruskal on every case",
                     "decide +kernel tables: 1099 undirected graphs on <=5 vertices, 4165 loop-free digraphs on <=4 vertices "
                     "(now corollaries of the unbounded theorems; kept as an independent cross-check of the definitions)",
-                    "the tie between the fuelled transcription `dfs` of _has_cycles.dfs and the recursion of the code is the "
-                    "correspondence (has_cycles of every case is diffed); that the fuel 2n+2 never runs out is a theorem "
-                    "(Dfs.dfs_exec)"]
+                    "the tie between the Core recursion `dfs` and the code of _has_cycles.dfs is the TRANSLATION of the "
+                    "source text (genDfs_eq, genHasCycles_eq, re-proved on every run) plus the correspondence (has_cycles "
+                    "of every case is diffed); that the fuel 2n+2 never runs out is a theorem (Dfs.dfs_exec)",
+                    "harness/py2lean2.py + harness/py2lean2w.py (translator) and harness/trans_c14.py + "
+                    "lean/MenpoModel/Core/C14Src.lean (the C14 vocabulary: the meaning of the numpy / scipy.sparse "
+                    "expressions of graph.py on the model graph)"]
     rng = ctx.rng
     b = Batch()
     import glob
@@ -1855,11 +2015,11 @@ def run(ctx):
     refused_representations(ctx, b, rng)
     exhaustive(ctx, b, rng)
     with_loops(ctx, b, rng)
-    randoms(ctx, b, rng, ctx.n(320, 4000))
+    randoms(ctx, b, rng, ctx.n(320, 3200))
     if getattr(b, "skipped_negative", 0):
         ctx.count("oracle-only(negative weights in an operation that adds or orders weights)", b.skipped_negative)
-    if getattr(b, "abs_weights", 0):
-        ctx.count("model-compared-on-|w|(negative weights, structural operation)", b.abs_weights)
+    if getattr(b, "signed", 0):
+        ctx.count("model-compared-with-signed-weights(negative weights, structural operation)", b.signed)
     settle(ctx, b)
     ctx.notes["exhaustive_small_domains"] = "all 1099 undirected graphs on <=5 vertices and all 4165 loop-free digraphs " \
         "on <=4 vertices run on the real classes (%s masks / start-end pairs per graph, every root)" % (
@@ -1915,6 +2075,13 @@ def replay(ctx, path):
     data = json.load(open(path))
     rp = data.get("replay") or (data.get("broken_correspondence") or [{}])[0].get("case", {})
     if "entries" not in rp and "edges" not in rp:
+        if data.get("broken_obligations"):
+            # a broken source-translation obligation without a failing input: re-translate the working tree and re-check
+            print("replay file carries no graph (broken obligation only): re-running the translated-source obligations")
+            for bo in data["broken_obligations"]:
+                print("  recorded:", bo.get("obligations") or bo.get("untranslatable") or bo.get("errors", [])[:2])
+            generated(ctx)
+            return ctx.finish(None)
         print("replay file carries no graph")
         return 2
     b = Batch()
